@@ -176,6 +176,18 @@ PDelItem(k) ==
   POp(IF r.st = 0 THEN heap ELSE r.h, IF r.st = 0 THEN <<>> ELSE r.chg,
       IF k \in Dom(m) THEN MapDel(m, k) ELSE m, [op |-> "delitem", k |-> k, v |-> 0],
       IF r.st = 0 THEN KeyErr ELSE OK, IF k \in Dom(m) THEN OK ELSE KeyErr)
+\* insert(k, v) / setdefault(k, v): _BTree_set(unique) - a key that is there is left alone
+PInsertU(k, v) ==
+  LET r == PSetR(heap, oids, Root, k, v, TRUE) IN
+  POp(r.h, r.chg, IF k \in Dom(m) THEN m ELSE MapSet(m, k, v), [op |-> "insertu", k |-> k, v |-> v], OK, OK)
+\* popitem() / pop() of a set: minKey() (a read), then the removal of that key
+PPopMin ==
+  LET e == ImplEmpty(heap)
+      k == ImplMinKey(heap)
+      r == PDelR(heap, oids, Root, k) IN
+  POp(IF e THEN heap ELSE r.h, IF e THEN <<>> ELSE r.chg,
+      IF Dom(m) = {} THEN m ELSE MapDel(m, CHOOSE x \in Dom(m) : \A y \in Dom(m) : x <= y),
+      [op |-> "popmin", k |-> 0, v |-> 0], IF e THEN KeyErr ELSE OK, IF Dom(m) = {} THEN KeyErr ELSE OK)
 PClear ==
   POp([heap EXCEPT ![Root] = Inner(<<>>, <<>>, Nil)],
       IF Len(heap[Root].kids) > 0 \/ PImpl = "py" THEN <<Root>> ELSE <<>>,
@@ -302,7 +314,8 @@ Evict(S, what) ==
   /\ act' = [op |-> what, k |-> 0, v |-> 0]
   /\ res' = [impl |-> OK, abs |-> OK]
   /\ UNCHANGED <<m, oids, reg, store, cm, ncommit, nops>>
-PNext == \/ (nops < MaxOps /\ \E k \in Keys : (\E v \in Vals : PSetItem(k, v)) \/ PDelItem(k))
+PNext == \/ (nops < MaxOps /\ \E k \in Keys : (\E v \in Vals : PSetItem(k, v) \/ PInsertU(k, v)) \/ PDelItem(k))
+         \/ (nops < MaxOps /\ PPopMin)
          \/ (nops < MaxOps /\ PClear)
          \/ (ncommit < MaxCommits /\ nops > 0 /\ Commit)
          \/ (nops > 0 /\ ncommit < MaxCommits /\ Abort)
